@@ -608,6 +608,25 @@ pub fn dispatch(m: &mut Machine, name: &str, args: &[&str]) -> Option<R> {
                 _ => Err("not-an-aead".into()),
             }
         })(),
+        // adec_rep <slot> <chunk> <count>: the chunk decrypted in place <count> times (very large running totals); output discarded
+        "adec_rep" => (|| {
+            need(args, 3)?;
+            let s = arg_slot(args[0])?;
+            let d = arg_bytes(args[1])?;
+            let n = arg_usize(args[2])?;
+            match m.slots.get_mut(s) {
+                Some(Some(Obj::Aead(o))) => {
+                    let mut work = d.as_slice().to_vec();
+                    for _ in 0..n {
+                        work.copy_from_slice(d.as_slice());
+                        aead_mut!(o, ContextDecryption, x => x.decrypt_mut(&mut work));
+                    }
+                    Ok("-".into())
+                }
+                Some(None) | None => Ok("ABSENT".into()),
+                _ => Err("not-an-aead".into()),
+            }
+        })(),
         "aenc_fin" => (|| {
             need(args, 1)?;
             let s = arg_slot(args[0])?;
